@@ -525,15 +525,22 @@ class Machine:
             if isinstance(c, Function):
                 return self.eval_const_body(c)
             return self.const_value(c, frame)
-        # constants named through a module path (e.g. `const MAX_MOMENT`)
-        for k, c in self.consts.items():
-            if k.rsplit("::", 1)[-1] == t and not isinstance(c, Function):
-                pref = frame.fn.name.split("<impl")[0]
-                if k.startswith(pref) or "::" not in k:
-                    return self.const_value(c, frame)
-        for k, c in self.consts.items():
-            if k.rsplit("::", 1)[-1] == t and not isinstance(c, Function):
-                return self.const_value(c, frame)
+        # constants named through a module path (e.g. `const MAX_MOMENT`, `const hist::LEN`): match on the last segment and
+        # prefer the definition whose module path shares the longest suffix with the use and the prefix with the current function
+        last = t.rsplit("::", 1)[-1]
+        cands = [(k, c) for k, c in self.consts.items() if k.rsplit("::", 1)[-1] == last and not isinstance(c, Function)]
+        if cands:
+            tsegs = t.split("::")
+            pref = frame.fn.name.split("<impl")[0] if frame is not None else ""
+
+            def score(k):
+                ks = k.split("::")
+                common = 0
+                while common < min(len(ks), len(tsegs)) and ks[-1 - common] == tsegs[-1 - common]:
+                    common += 1
+                return (common, 1 if k.startswith(pref) and pref else 0)
+            cands.sort(key=lambda kc: score(kc[0]), reverse=True)
+            return self.const_value(cands[0][1], frame)
         if re.fullmatch(r"[A-Za-z_][A-Za-z0-9_:]*", t):
             # unit struct / fn item / ZST
             return Agg([], "adt", t)
